@@ -48,3 +48,62 @@ Print Assumptions C15_anchor2.
 Print Assumptions C15_monotone.
 Print Assumptions C15_payload_order.
 Print Assumptions C15_times.
+
+(* ---- audit follow-ups (Proofs/OpsLinExtra.v) ---- *)
+From Astisub Require Import Proofs.OrderProofs Proofs.OpsLinExtra.
+
+(* "scales every cue's length by the slope": for two boundaries t, t' the corrected distance is slope * (t' - t) to
+   within 3 ns - in fact 17/8 ns: the truncated intercept is added to both and cancels *)
+Theorem C15_length : forall a1 d1 a2 d2 t t' : Z,
+  in_day a1 -> in_day d1 -> in_day a2 -> in_day d2 -> in_day t -> in_day t' -> a1 <> a2 -> slope_ok a1 d1 a2 d2 ->
+  (Rabs (IZR (lin a1 d1 a2 d2 t' - lin a1 d1 a2 d2 t) - IZR (t' - t) * IZR (d2 - d1) / IZR (a2 - a1)) <= 3)%R.
+Proof. exact lin_length. Qed.
+Theorem C15_length_sharp : forall a1 d1 a2 d2 : Z,
+  in_day a1 -> in_day d1 -> in_day a2 -> in_day d2 -> slope_ok a1 d1 a2 d2 ->
+  forall t t' : Z, in_day t -> in_day t' ->
+  (Rabs (IZR (lin a1 d1 a2 d2 t' - lin a1 d1 a2 d2 t) - IZR (t' - t) * slope a1 d1 a2 d2) <= 17 / 8)%R.
+Proof. exact lin_length_slope. Qed.
+(* list level: every cue's length, in list order *)
+Theorem C15_lengths_list : forall a1 d1 a2 d2 : Z,
+  in_day a1 -> in_day d1 -> in_day a2 -> in_day d2 -> a1 <> a2 -> slope_ok a1 d1 a2 d2 ->
+  forall l, Forall cue_in_day l ->
+  Forall2 (fun x y => (Rabs (IZR (en y - st y) - IZR (en x - st x) * IZR (d2 - d1) / IZR (a2 - a1)) <= 3)%R)
+          l (linear_correction a1 d1 a2 d2 l).
+Proof. exact linear_correction_lengths. Qed.
+(* start <= end is preserved for every cue of the list (monotonicity applied to both ends); zero-length cues stay
+   zero-length; a start-ordered list stays start-ordered *)
+Theorem C15_preserves_wf : forall a1 d1 a2 d2 : Z,
+  in_day a1 -> in_day d1 -> in_day a2 -> in_day d2 -> a1 <> a2 -> slope_ok a1 d1 a2 d2 ->
+  forall l, Forall cue_in_day l -> Forall (fun x => (st x <= en x)%Z) l ->
+  Forall (fun y => (st y <= en y)%Z) (linear_correction a1 d1 a2 d2 l).
+Proof. exact linear_correction_wf. Qed.
+Theorem C15_zero_length : forall a1 d1 a2 d2 l,
+  Forall2 (fun x y => st x = en x -> st y = en y) l (linear_correction a1 d1 a2 d2 l).
+Proof. exact linear_correction_zero_length. Qed.
+Theorem C15_preserves_sorted : forall a1 d1 a2 d2 : Z,
+  in_day a1 -> in_day d1 -> in_day a2 -> in_day d2 -> a1 <> a2 -> slope_ok a1 d1 a2 d2 ->
+  forall l, Forall cue_in_day l -> sorted l -> sorted (linear_correction a1 d1 a2 d2 l).
+Proof. exact linear_correction_sorted. Qed.
+(* the degenerate quadruple a1 = a2, outside the property's domain: the model's slope is x/0 (an infinity or NaN), all
+   products and the intercept are non-finite and Flocq's truncation maps them to 0, so the MODEL returns 0 for every
+   boundary.  In Go the float64 -> int64 conversion of +-Inf/NaN is implementation-defined: no agreement is claimed. *)
+Theorem C15_degenerate_model : forall a d1 d2 t : Z, lin a d1 a d2 t = 0%Z.
+Proof. exact lin_degenerate. Qed.
+
+(* non-vacuity: three cues with text (one of zero length), ratio 25/23.976 anchored over one hour *)
+Example C15_list_example :
+  map (fun x => (uid x, st x, en x, item_text x)) (linear_correction 0 0 3600000000000 3753753753753 ex_lin) =
+  [(1%N, 1042709376, 3649482816, [65%N]); (2%N, 3649482816, 3649482816, [66%N]);
+   (3%N, 1876876876876, 1878962295628, [67%N])]%Z.
+Proof. exact ex_lin_result. Qed.
+Example C15_list_example_hyps : in_day 0 /\ in_day 3600000000000 /\ in_day 3753753753753 /\
+  slope_ok 0 0 3600000000000 3753753753753 /\ Forall cue_in_day ex_lin /\ Forall (fun x => (st x <= en x)%Z) ex_lin /\ sorted ex_lin.
+Proof. exact ex_lin_hyps. Qed.
+
+Print Assumptions C15_length.
+Print Assumptions C15_length_sharp.
+Print Assumptions C15_lengths_list.
+Print Assumptions C15_preserves_wf.
+Print Assumptions C15_zero_length.
+Print Assumptions C15_preserves_sorted.
+Print Assumptions C15_degenerate_model.
